@@ -116,7 +116,7 @@ pub fn write(chunks: &[Chunk]) -> Written {
                         m.reset_state(lc, lp, pb);
                     }
                 }
-                if prog.iter().any(|s| matches!(s, Sym::E)) {
+                if prog.iter().any(|s| matches!(s, Sym::E | Sym::EL(_))) {
                     note(&mut ill, format!("chunk {}: end marker inside LZMA2", ci));
                 }
                 let before = m.produced();
